@@ -38,7 +38,10 @@ type World struct {
 	Insts map[string]*Inst // by absolute path
 	Tmpls []*Template
 	Log   []string // what the generator did, for the replay file
-	seq   int
+	// Forged: build ids of shards the harness wrote itself (foreignShard): their metadata may claim a repository's
+	// current HEAD while their content is not that repository's, so content searches say nothing about them.
+	Forged map[string]bool
+	seq    int
 }
 
 func (w *World) logf(f string, a ...any) { w.Log = append(w.Log, fmt.Sprintf(f, a...)) }
@@ -309,6 +312,16 @@ func (w *World) foreignShard(name, source, ver, prefix string, disableCTags bool
 	}
 	must(b.Add(index.Document{Name: "foreign.txt", Content: []byte("foreign content " + name + "\n"), Branches: branches}))
 	must(b.Finish())
+	if w.Forged == nil {
+		w.Forged = map[string]bool{}
+	}
+	if obs, _ := Inventory(w.Index); true {
+		for _, o := range obs {
+			if o.Name == name && o.Source == source && o.Err == "" {
+				w.Forged[o.BuildID] = true
+			}
+		}
+	}
 	w.logf("foreign shard name=%q source=%q ver=%q prefix=%q noctags=%v", name, source, ver, prefix, disableCTags)
 }
 
